@@ -99,6 +99,40 @@ def _work(task):
         return dict(key=key, ci=ci, error='crash: ' + traceback.format_exc(), results=[], label=label, crash=True)
 
 
+def run_tasks(tasks, jobs):
+    """Run the tasks on a process pool that survives the death of a worker (a solver crash must not hang the check):
+    a broken pool is rebuilt and the unfinished tasks are run again; a task that is still unfinished after three pools
+    is reported as a crash of that function (exit 3), never silently dropped."""
+    from concurrent.futures import ProcessPoolExecutor, as_completed
+    from concurrent.futures.process import BrokenProcessPool
+    results = {}
+    pending = list(range(len(tasks)))
+    for attempt in range(3):
+        if not pending:
+            break
+        workers = jobs if attempt == 0 else max(1, jobs // 2)
+        try:
+            with ProcessPoolExecutor(max_workers=workers, mp_context=mp.get_context('fork')) as pool:
+                futs = {pool.submit(_work, tasks[i]): i for i in pending}
+                for f in as_completed(futs):
+                    try:
+                        results[futs[f]] = f.result()
+                    except BrokenProcessPool:
+                        raise
+                    except Exception:  # noqa
+                        t = tasks[futs[f]]
+                        results[futs[f]] = dict(key=t[0], ci=t[1], error='crash: ' + traceback.format_exc(), results=[],
+                                                label=t[3], crash=True)
+        except BrokenProcessPool:
+            pass
+        pending = [i for i in pending if i not in results]
+    for i in pending:
+        t = tasks[i]
+        results[i] = dict(key=t[0], ci=t[1], error='crash: a worker process died while checking this function (three attempts)',
+                          results=[], label=t[3], crash=True)
+    return [results[i] for i in range(len(tasks))]
+
+
 def prove_lemmas(pid, timeout_ms):
     from pyvc.lemmas import prove_lemma
     out = []
@@ -188,8 +222,7 @@ def run(pid, tier, seed=0, jobs=None, only=None, verbose=False):
     assumed = sorted({key for key, cs in REG.contracts.items() for c in cs if pid in c.props and c.assumed})
     jobs = jobs or min(16, max(1, len(tasks)))
     if jobs > 1 and len(tasks) > 1:
-        with mp.get_context('fork').Pool(jobs) as pool:
-            outs = pool.map(_work, tasks, chunksize=1)
+        outs = run_tasks(tasks, jobs)
     else:
         outs = [_work(t) for t in tasks]
     lemma_results = prove_lemmas(pid, timeout_ms)
